@@ -100,6 +100,26 @@ def run(prog, chk):
         else:
             r3.ok(key + "@L%s" % e["node"].get("l"), "reachable in %s" % sorted(e["worlds"]))
 
+    # error callbacks: syntax errors are reported with or without a target; only the duplicate-name / duplicate-code
+    # diagnostics (which need the stored content) and codes handed on from a storing call may depend on it
+    es = collect(("error",))
+    n_err = 0
+    for (fname, what, nid), e in sorted(es.items(), key=lambda kv: (kv[0][0], kv[1]["node"].get("l"))):
+        if what == "?" or what.startswith("CIF_DUP_"):
+            continue                # a code received from a storing call / a documented semantic diagnostic
+        n_err += 1
+        fn = prog.fn(fname)
+        key = "%s:error:%s" % (fname, what)
+        if "storing" in e["worlds"] and "syntax-only" not in e["worlds"]:
+            r3.violation(fn.file, fname, e["node"].get("l"), "error-needs-target:" + key,
+                         "the syntax error %s at L%s is reported only when a target CIF/container is present: a syntax-only parse "
+                         "(and a parse that is skipping the enclosing container) accepts the document without it"
+                         % (what, e["node"].get("l")))
+        else:
+            r3.ok(key + "@L%s" % e["node"].get("l"), "reported in %s" % sorted(e["worlds"]))
+    if n_err < 15:
+        raise Broken("only %d error-callback sites with a literal code observed in the productions" % n_err)
+
     r4 = chk.rule("R4-depth-bookkeeping", "each production returns with the skip depth its contract states (entered skipping: "
                   "unchanged; entered at 0: 0 or 1); depth stores are `= 1|2` under a SKIP directive label, `+= 1` / `-= 1` "
                   "only under `skip_depth > 0`", floor=8)
